@@ -1004,6 +1004,269 @@ def judge_scale(ctx, recs, what, tally, meta):
     return rejects
 
 
+
+# ---------------------------------------------------------------------------------
+# WORLD (class W): two record files alive in ONE process, their calls interleaved.  TLC enumerates the sessions
+# (TextCodecWorld.tla: every merge of the two files' scripts x entry points x twin tables) and checks that the
+# own-buffer mechanism meets WorldIndependent while a process-wide shared buffer violates it; every exported
+# session is executed here in one fresh (forked) process, step by step, and TextCodecWorldTrace.tla judges every
+# read against the rows written to ITS file (TCWWritten, computed by TLC from the steps).
+# ---------------------------------------------------------------------------------
+import pickle
+import select
+import struct
+import time as _time
+
+WORLD_INVS = ["WorldIndependent", "DiskOK", "RefSessionAccepted"]
+WORLD_ORDERS = {1: "lt", 2: "gt"}
+WORLD_TIMEOUT = 120
+
+
+def world_tables(sess, rng):
+    """the symbolic tables of the session's files -> concrete canonical tables and the chunk boundaries"""
+    out = []
+    for ft in sess["files"]:
+        flat = [row for ch in ft["chunks"] for row in ch]
+        ct = instantiate({"fields": ft["fields"], "rows": flat}, rng)
+        cuts, a = [], 0
+        for ch in ft["chunks"]:
+            cuts.append((a, a + len(ch)))
+            a += len(ch)
+        out.append({"ct": ct, "cuts": cuts})
+    return out
+
+
+def _world_read_obs(res, hdr, ct, delim, entry, order):
+    obs = {"entry": entry, "order": order, "err": "none", "fields": [], "rows": [], "hdr": NOHDR if hdr is None else project_header(hdr, delim)}
+    if not isinstance(res, np.ndarray) or res.dtype.names is None or res.ndim != 1:
+        obs["err"] = "NotATable"
+        return obs
+    obs["fields"] = project_fields(res.dtype)
+    same = [(g["k"], g["w"], g["sh"]) for g in obs["fields"]] == [(f["k"], f["w"], f["sh"]) for f in ct["fields"]]
+    obs["rows"] = project_rows(res, ct["fields"], delim) if same else [[[] for _ in obs["fields"]] for _ in range(res.shape[0])]
+    return obs
+
+
+def _world_child(sess, tabs, delim, wfd):
+    """runs in the forked child: the steps of the session in order, one observation per step sent to the parent"""
+    from esutil import sfile, recfile
+    dn = os.open(os.devnull, os.O_WRONLY)
+    os.dup2(dn, 2)
+    tmp = tempfile.mkdtemp(prefix="w%d-" % os.getpid(), dir=_tmpdir())
+    paths = {f: os.path.join(tmp, "f%d.rec" % f) for f in (1, 2)}
+    arrs = {f: build_array(tabs[f - 1]["ct"], delim, WORLD_ORDERS[f]) for f in (1, 2)}
+    objs, nch, held = {}, {1: 0, 2: 0}, {}
+    for st in sess["steps"]:
+        f, op = st["f"], st["op"]
+        entry, order = sess["ent"][f - 1], WORLD_ORDERS[f]
+        arr, path = arrs[f], paths[f]
+        isread = op in ("rd", "rall")
+        obs = {"entry": entry, "order": order, "err": "none", "fields": [], "rows": [], "hdr": NOHDR} if isread else {"err": "none"}
+        try:
+            if op == "ow":
+                nch[f] = 0
+                objs[f] = sfile.SFile(path, "w", delim=delim) if entry == "sfile" else recfile.Recfile(path, mode="w", delim=delim)
+            elif op == "wr":
+                a, b = tabs[f - 1]["cuts"][nch[f]]
+                nch[f] += 1
+                objs[f].write(arr[a:b])
+            elif op == "cl":
+                objs.pop(f).close()
+            elif op == "wall":
+                if entry == "sfile":
+                    sfile.write(path, arr, delim=delim)
+                else:
+                    with recfile.Recfile(path, mode="w", delim=delim) as rf:
+                        rf.write(arr)
+            elif op == "or":
+                objs[f] = sfile.SFile(path) if entry == "sfile" else recfile.Recfile(path, mode="r", delim=delim, dtype=arr.dtype)
+            elif op == "rd":
+                if entry == "sfile":
+                    res, hdr = objs[f].read(header=True)
+                else:
+                    res, hdr = objs[f].read(), None
+                obs = _world_read_obs(res, hdr, tabs[f - 1]["ct"], delim, entry, order)
+                held[f] = res
+            elif op == "scr":        # results are the caller's: overwrite every byte of the rows last read from this file
+                try:
+                    if isinstance(held.get(f), np.ndarray):
+                        held[f].view(np.uint8).fill(0x23)
+                except Exception:  # noqa  (a result that cannot be overwritten is not a violation)
+                    pass
+            elif op == "rall":
+                if entry == "sfile":
+                    res, hdr = sfile.read(path, header=True)
+                else:
+                    with recfile.Recfile(path, mode="r", delim=delim, dtype=arr.dtype) as rf:
+                        res, hdr = rf.read(), None
+                obs = _world_read_obs(res, hdr, tabs[f - 1]["ct"], delim, entry, order)
+                held[f] = res
+            else:
+                obs["err"] = "UnknownOp"
+        except Exception as e:  # noqa
+            obs["err"] = type(e).__name__
+        blob = pickle.dumps(obs)
+        os.write(wfd, struct.pack("<I", len(blob)) + blob)
+    for o in list(objs.values()):
+        try:
+            o.close()
+        except Exception:  # noqa
+            pass
+    shutil.rmtree(tmp, True)
+
+
+def world_session(job):
+    """job = (id, session, tables) -> session record for TextCodecWorldTrace; the whole session runs in one fresh child"""
+    rid, sess, tabs = job
+    delim = chr(sess["dcode"])
+    files = []
+    for f in (1, 2):
+        ct = tabs[f - 1]["ct"]
+        written = project_rows(build_array(ct, delim, "lt"), ct["fields"], delim)
+        files.append({"fields": [{"name": x["name"], "k": x["k"], "w": x["w"], "sh": x["sh"]} for x in ct["fields"]],
+                      "chunks": [written[a:b] for a, b in tabs[f - 1]["cuts"]]})
+    _tmpdir()
+    rfd, wfd = os.pipe()
+    pid = os.fork()
+    if pid == 0:
+        code = 0
+        try:
+            os.close(rfd)
+            _world_child(sess, tabs, delim, wfd)
+        except BaseException:  # noqa
+            code = 3
+        finally:
+            os._exit(code)
+    os.close(wfd)
+    buf, died = b"", "ProcessDied"
+    t0 = _time.time()
+    while True:
+        left = WORLD_TIMEOUT - (_time.time() - t0)
+        if left <= 0 or not select.select([rfd], [], [], left)[0]:
+            died = "Timeout"
+            try:
+                os.kill(pid, 9)
+            except OSError:
+                pass
+            break
+        part = os.read(rfd, 1 << 16)
+        if not part:
+            break
+        buf += part
+    os.close(rfd)
+    os.waitpid(pid, 0)
+    obs, at = [], 0
+    while at + 4 <= len(buf):
+        n = struct.unpack("<I", buf[at:at + 4])[0]
+        if at + 4 + n > len(buf):
+            break
+        obs.append(pickle.loads(buf[at + 4:at + 4 + n]))
+        at += 4 + n
+    for st in sess["steps"][len(obs):]:          # the child did not get that far: the call did not return
+        f = st["f"]
+        obs.append({"entry": sess["ent"][f - 1], "order": WORLD_ORDERS[f], "err": died, "fields": [], "rows": [], "hdr": NOHDR}
+                   if st["op"] in ("rd", "rall") else {"err": died})
+    return {"id": rid, "dcode": sess["dcode"], "delim": delim, "files": files, "steps": sess["steps"], "obs": obs}
+
+
+def slim_world(r):
+    return {k: r[k] for k in ("id", "dcode", "files", "steps", "obs")}
+
+
+def judge_world(ctx, recs, what, tally, meta):
+    rejects = tracecheck.validate(ctx, "TextCodecWorldTrace.tla", [slim_world(r) for r in recs], what=what)
+    byid = {r["id"]: r for r in recs}
+    for rid in sorted(rejects):
+        r = byid[rid]
+        sess = meta[rid]["sess"]
+        dl = next((c[3:] for c in rejects[rid] if c.startswith("dl:")), "unknown")
+        for c in rejects[rid]:
+            if c.startswith("dl:"):
+                continue
+            k, clause = c.split(":", 1)
+            st = r["steps"][int(k) - 1]
+            entry = sess["ent"][st["f"] - 1]
+            # one defect family -> one signature: the entry point and the clause class, not the merge that exposed it
+            sig = "%s|world:%s" % (entry, "same_rows" if clause in ROWS_CLAUSES else clause)
+            case = {"kind": "world", "sess": sess, "tabs": meta[rid]["tabs"], "step": int(k), "failing": clause,
+                    "steps": ["%d:%s" % (x["f"], x["op"]) for x in r["steps"]], "observed": r["obs"][int(k) - 1],
+                    "written": r["files"][st["f"] - 1]["chunks"]}
+            tally.add(ctx, sig, "", "two record files open in one process (%s; file 1 via %s, file 2 via %s; twin tables '%s'; delim %s): step %s "
+                      "'%s' of file %d: clause '%s' of C04 violated - the outcome depends on the other file" %
+                      (" ".join(case["steps"]), sess["ent"][0], sess["ent"][1], sess["twin"], dname(r["delim"]), k, st["op"], st["f"], clause), case)
+    return rejects
+
+
+def _overlaps(steps):
+    """number of steps executed on one file while the OTHER file has an open handle (statistic for the vacuity guard)"""
+    open_, n = set(), 0
+    for st in steps:
+        if open_ - {st["f"]}:
+            n += 1
+        if st["op"] in ("ow", "or"):
+            open_.add(st["f"])
+        elif st["op"] == "cl":
+            open_.discard(st["f"])
+    return n
+
+
+def run_world(ctx, sessions, tally, first_id):
+    tier = ctx.tier
+    if len(sessions) < (3000 if tier == "quick" else 19000):
+        raise MachineryError("world: only %d sessions exported" % len(sessions))
+    sessions = sorted(sessions, key=lambda s: (s["kinds"], s["ent"], s["twin"], [(x["f"], x["op"]) for x in s["steps"]]))
+    rng = random.Random(ctx.seed * 32452843 + 3)
+    jobs, meta = [], {}
+    for n, sess in enumerate(sessions):
+        tabs = world_tables(sess, rng)
+        jobs.append((first_id + n, sess, tabs))
+        meta[first_id + n] = {"sess": sess, "tabs": tabs}
+    recs = pmap(world_session, jobs)
+    for r in recs:
+        s = meta[r["id"]]["sess"]
+        ctx.count({"world": [s["kinds"], s["ent"], s["twin"], s["dcode"], [(x["f"], x["op"]) for x in s["steps"]]]})
+    judge_world(ctx, recs, "judge world sessions: every read against its own file (TextCodecWorldTrace)", tally, meta)
+    note = {"sessions": len(sessions), "steps": sum(len(s["steps"]) for s in sessions),
+            "reads_judged": sum(1 for s in sessions for x in s["steps"] if x["op"] in ("rd", "rall")),
+            "steps_with_other_file_open": sum(_overlaps(s["steps"]) for s in sessions),
+            "by_scripts": {}, "by_entries": {}, "by_twin": {}}
+    for s in sessions:
+        for key, val in (("by_scripts", "+".join(s["kinds"])), ("by_entries", "+".join(s["ent"])), ("by_twin", s["twin"])):
+            note[key][val] = note[key].get(val, 0) + 1
+    if (len(note["by_scripts"]) < 3 or len(note["by_entries"]) < 4 or len(note["by_twin"]) < 3 or
+            min(min(note[k].values()) for k in ("by_scripts", "by_entries", "by_twin")) < 100 or
+            note["steps_with_other_file_open"] < 3 * len(sessions)):
+        raise MachineryError("world sessions thinly spread: %s" % note)
+    probe = next((r for r in recs if all(o["err"] == "none" for o in r["obs"]) and meta[r["id"]]["sess"]["twin"] != "types" and
+                  all(o["rows"] == [row for ch in r["files"][st["f"] - 1]["chunks"] for row in ch]
+                      for st, o in zip(r["steps"], r["obs"]) if st["op"] in ("rd", "rall"))), None)
+    return note, probe
+
+
+def selftest_world(ctx, probe):
+    """a session record binds: a read that returns the OTHER file's rows, a lost row and a failed non-read step are rejected"""
+    if probe is None:
+        if ctx.violations:
+            return
+        raise MachineryError("world self-test: no clean session record")
+    import copy
+    good = dict(slim_world(probe), id=1)
+    reads = [i for i, st in enumerate(good["steps"]) if st["op"] in ("rd", "rall")]
+    nonread = next(i for i, st in enumerate(good["steps"]) if st["op"] not in ("rd", "rall"))
+    a, b, c = copy.deepcopy(good), copy.deepcopy(good), copy.deepcopy(good)
+    a["id"], b["id"], c["id"] = 2, 3, 4
+    i = reads[-1]
+    other = good["files"][2 - good["steps"][i]["f"]]            # the other file of the pair (f = 1 -> index 1, f = 2 -> index 0)
+    a["obs"][i]["rows"] = [row for ch in other["chunks"] for row in ch]
+    b["obs"][reads[0]]["rows"] = b["obs"][reads[0]]["rows"][:-1]
+    c["obs"][nonread]["err"] = "OSError"
+    saved = ctx.traces
+    rej = tracecheck.validate(ctx, "TextCodecWorldTrace.tla", [good, a, b, c], what="self-test: corrupted world sessions rejected", workers=1)
+    ctx.traces = saved
+    if (1 in rej or not any(x.startswith("%d:rows_" % (i + 1)) for x in rej.get(2, [])) or
+            "%d:rows_count" % (reads[0] + 1) not in rej.get(3, []) or "%d:step_error" % (nonread + 1) not in rej.get(4, [])):
+        raise MachineryError("world self-test failed: %s" % {k: rej.get(k) for k in (1, 2, 3, 4)})
+
 # ---------------------------------------------------------------------------------
 ACTIONS = ["ChooseLayout", "ChooseRows", "Write", "ReadStrField", "ScanNumField", "Finish"]
 
@@ -1035,7 +1298,7 @@ def run(ctx):
     ctx.tlc("TextCodecMC.tla", what="pinned scanner refines the round trip except on the named hazards",
             cfg_text=cfg(constants=base, invariants=MECH_INVS), workers=16, require=ACTIONS, timeout=3000)
     maxw = int(os.environ.get("VH_MAX_WORKERS", "16"))
-    with ThreadPoolExecutor(3) as ex:
+    with ThreadPoolExecutor(4) as ex:
         #    ... the repaired scanner meets it everywhere, for every delimiter of every table's plan, and the text
         #    written does not depend on the delimiter character (the separator is an argument of printf) ...
         f2 = ex.submit(ctx.tlc, "TextCodecMC.tla", what="repaired scanner refines the round trip for every planned delimiter",
@@ -1056,7 +1319,30 @@ def run(ctx):
                        cfg_text=cfg(constants=fmt, invariants=["FmtWriterCharacterised"]), workers=2, coverage=False)
         fv = ex.submit(ctx.tlc, "TextCodecMC.tla", what="self-test: format-writer violates MechRefines",
                        cfg_text=cfg(constants=fmt, invariants=["MechRefines"]), workers=1, allow_violation=True, coverage=False)
+        # world machine (class W): the own-buffer mechanism is world-independent over every merge of the two files'
+        # scripts, the shared-buffer mechanism is not (non-vacuity), and the sessions are exported
+        wbase = dict(Buffering="own", Memo="none", WTier=tier, DoExport=False)
+        fw1 = ex.submit(ctx.tlc, "TextCodecWorld.tla", what="world: own-buffer mechanism is world-independent, reference sessions accepted",
+                        cfg_text=cfg(constants=wbase, invariants=WORLD_INVS), workers=2, coverage=False, timeout=3000)
+        fw2 = ex.submit(ctx.tlc, "TextCodecWorld.tla", what="self-test: a process-wide shared buffer violates WorldIndependent",
+                        cfg_text=cfg(constants=dict(wbase, Buffering="shared"), invariants=["WorldIndependent"]), workers=1,
+                        allow_violation=True, coverage=False)
+        fw4 = ex.submit(ctx.tlc, "TextCodecWorld.tla", what="self-test: a read memo keyed by the column layout violates WorldIndependent",
+                        cfg_text=cfg(constants=dict(wbase, Memo="layout"), invariants=["WorldIndependent"]), workers=1,
+                        allow_violation=True, coverage=False)
+        fw5 = ex.submit(ctx.tlc, "TextCodecWorld.tla", what="self-test: a read memo handing out its own storage violates WorldIndependent",
+                        cfg_text=cfg(constants=dict(wbase, Memo="path"), invariants=["WorldIndependent"]), workers=1,
+                        allow_violation=True, coverage=False)
+        fw3 = ex.submit(ctx.tlc, "TextCodecWorld.tla", what="export world sessions",
+                        cfg_text=cfg(constants=dict(wbase, DoExport=True), constraints=["Export"]), workers=1, coverage=False, timeout=3000)
         r2, rs, r3, rc, rv = f2.result(), fs.result(), f3.result(), fc.result(), fv.result()
+        rw1, rw2, rw3, rw4, rw5 = fw1.result(), fw2.result(), fw3.result(), fw4.result(), fw5.result()
+    if any("WorldIndependent" not in r.violated for r in (rw2, rw4, rw5)) or rw1.distinct < 60000:
+        raise MachineryError("world self-test failed: shared buffer %s, layout memo %s, own-storage memo %s, faithful run %d states" %
+                             (rw2.violated, rw4.violated, rw5.violated, rw1.distinct))
+    sessions = rw3.records.get("SESSION", [])
+    if rw3.garbled:
+        raise MachineryError("world export: %d unparsed lines" % rw3.garbled)
     if "MechRefines" not in rs.violated:
         raise MachineryError("self-test failed: MechRefines not violated by the pinned scanner model")
     if "MechRefines" not in rv.violated or rc.distinct < 1000:
@@ -1117,6 +1403,8 @@ def run(ctx):
         replay_and_judge(ctx, rjobs, None, tally, "judge seeded larger tables (TextCodecTrace)", None, stats, nsample=1)
         # 3b. scale cases (class S): big tables judged through the split laws
         scale_note, scale_probe = run_scale(ctx, r3.records.get("SCALE", []), tally, len(jobs) + len(rjobs) + 100000)
+        # 3c. world sessions (class W): two files alive in one process, every read judged against its own file
+        world_note, world_probe = run_world(ctx, sessions, tally, len(jobs) + len(rjobs) + 200000)
     finally:
         tally.flush(ctx)             # violations established so far stand even if a later stage stops
     # 4. the inherently ambiguous delimiters: observed for the record, nothing is demanded (TLC accepts whatever came back)
@@ -1124,6 +1412,7 @@ def run(ctx):
     # 5. binding self-test: corrupted observations must be rejected, each with its own clause
     selftest(ctx, probe)
     selftest_scale(ctx, scale_probe)
+    selftest_world(ctx, world_probe)
     ctx.rule = ("every table of the bounded families %s of TextCodecMC.tla (layouts x rows x cell alphabets, exported by TLC), each "
                 "written and read back with the delimiters TLC assigned to it out of the %d single-character delimiters of the "
                 "quantifier (TCQuantDelims of TextCodec.tla: tab, VT, FF, space and every printable ASCII character that neither occurs "
@@ -1131,7 +1420,10 @@ def run(ctx):
                 "order; plus %d seeded tables (<= 6 fields of every type, sub-arrays, <= 8 rows, printable ASCII strings, lattice and "
                 "generic floats) with %s; plus the scale cases of TextCodecMC.tla (ScaleCases: 10^5..10^6 rows, 50..1000 columns, sub-arrays of "
                 "512..10^4 elements, sfile headers with the END line at every offset -8..8 around multiples of 4096 bytes up to 64 KiB), cut "
-                "into small parts and judged through the split laws; a case is one (table as written, delimiter) pair, distinct by its "
+                "into small parts and judged through the split laws; plus the world sessions of TextCodecWorld.tla (two record files alive in "
+                "one process: every merge of the two files' call scripts - write in pieces / close / one-shot read, one-shot write / open / read / "
+                "the caller scribbles over the result / read again / close - x sfile|recfile per file x twin tables with the same header text, other row counts, or the same names and row size "
+                "with other types; each session in one fresh process, every read judged against its own file); a case is one (table as written, delimiter) pair, distinct by its "
                 "abstract record, always non-trivial" %
                 (sorted(fam_count), len(quant),
                  "every delimiter for the families %s, the six listed ones and one more (spread by a hash of the table) for the others" % DELIM_FAMILIES[tier]
@@ -1147,6 +1439,7 @@ def run(ctx):
                          "coverage_min": {k: min(cv[k] for cv in cover.values()) for k in ("tables", "led_number", "delim_in_string")},
                          "ambiguous_observed_round_trips": ambiguous},
              scale=scale_note,
+             world=world_note,
              mechanism_binding=binding, violations_by_signature=dict(sorted(tally.by_sig.items())),
              undecided=["16th (f8) / 7th (f4) significant digit of floats that need it: decided only to relative 1e-15 / 1e-6 (fields of tier 'gen'); "
                         "equality is demanded on the short-decimal lattice (<= 15 / <= 6 digits, and the 16 / 7 digit values of the text shapes "
@@ -1343,6 +1636,17 @@ def selftest(ctx, probe):
 
 
 def replay(ctx, case):
+    if case.get("kind") == "world":
+        sess = case["sess"]
+        rec = world_session((1, sess, case["tabs"]))       # the whole session again, in one fresh child process
+        for st, o in zip(rec["steps"], rec["obs"]):
+            print("replay step %d:%-4s ->" % (st["f"], st["op"]), o["err"] if "rows" not in o else {k: o[k] for k in ("err", "rows")})
+        if not CATALOG:
+            CATALOG[chr(sess["dcode"])] = {"cls": "", "grp": "", "quant": True}
+        tally = Tally()
+        judge_world(ctx, [rec], "replay", tally, {1: {"sess": sess, "tabs": case["tabs"]}})
+        tally.flush(ctx)
+        return
     if case.get("kind") == "scale":
         recs = scale_job((1, case["sc"], case["ct"], [(case["entry"], case["order"])]))
         print("replay scale case:", {k: recs[0][k] for k in ("axis", "nw", "no", "hw", "ho", "err", "where", "hdr_blocks", "size")})
